@@ -121,6 +121,9 @@ pub enum LocalizeScript {
 pub struct AdapterScript {
     pub status: Outcome<Option<ServerStatus>>,
     pub status_latency: Duration,
+    /// the status adapter panics (after its latency) when asked about this host: a bug in one
+    /// connection's handling must stay that connection's problem
+    pub status_panics_for: Option<String>,
     pub auth: Outcome<Profile>,
     pub auth_latency: Duration,
     pub discovery: Outcome<Vec<TargetRec>>,
@@ -137,6 +140,7 @@ impl Default for AdapterScript {
         AdapterScript {
             status: Outcome::Ok(None),
             status_latency: Duration::ZERO,
+            status_panics_for: None,
             auth: Outcome::Err,
             auth_latency: Duration::ZERO,
             discovery: Outcome::Ok(vec![]),
@@ -228,6 +232,9 @@ impl StatusAdapter for Rec {
     async fn status(&self, client_addr: &SocketAddr, server_addr: (&str, u16), protocol: Protocol) -> Result<Option<ServerStatus>> {
         let idx = self.begin(Call::Status { ctx: ctx(client_addr, server_addr, protocol) });
         self.wait(self.script.status_latency).await;
+        if self.script.status_panics_for.as_deref() == Some(server_addr.0) {
+            panic!("scripted panic in the status adapter (verification harness)");
+        }
         let out = match &self.script.status {
             Outcome::Ok(v) => Ok(v.clone()),
             Outcome::Err => Err(scripted_error()),
